@@ -61,6 +61,8 @@ type harnessSpec struct {
 	needReach       []string // labels that must be reached on some path (vacuity guard)
 	desc            string
 	noNative        bool // harness uses engine-only stubs: no native replay
+	solver          string // primary solver binary for this harness (default: options)
+	altSolver       bool // mirror the assertions into cvc5 and consult it when z3 answers unknown
 }
 
 type harnessResult struct {
@@ -223,6 +225,25 @@ func (e *engine) findFunc(pkgPath, name string) *ssa.Function {
 // ---------------------------------------------------------------------------
 // exploration
 
+// newSolverFor: the primary solver, plus (for harnesses that reason about multi-megabyte
+// lengths) a mirrored cvc5 consulted whenever the primary answers unknown.
+func newSolverFor(e *engine, h *harnessSpec) *Solver {
+	primary := e.opts.solverBin
+	if h.solver != "" {
+		primary = h.solver
+	}
+	if h.altSolver {
+		other := "cvc5"
+		if strings.Contains(primary, "cvc5") {
+			other = "z3-new"
+		}
+		s := NewSolver(primary, 2500)
+		s.alt = NewSolver(other, e.opts.solverTmoMs)
+		return s
+	}
+	return NewSolver(primary, e.opts.solverTmoMs)
+}
+
 var traceNext bool
 var pathLog = os.Getenv("VERIF_PATHLOG") != ""
 
@@ -308,7 +329,7 @@ func (e *engine) explore(h *harnessSpec) *harnessResult {
 		wg.Add(1)
 		go func() {
 			defer wg.Done()
-			solver := NewSolver(e.opts.solverBin, e.opts.solverTmoMs)
+			solver := newSolverFor(e, h)
 			defer func() { solver.Close() }()
 			if w == 0 && smtLogPath != "" {
 				if f, err := os.Create(smtLogPath); err == nil {
@@ -321,9 +342,9 @@ func (e *engine) explore(h *harnessSpec) *harnessResult {
 				if !ok {
 					return
 				}
-				if solver.dead {
+				if solver.dead && solver.alt == nil {
 					solver.Close()
-					solver = NewSolver(e.opts.solverBin, e.opts.solverTmoMs)
+					solver = newSolverFor(e, h)
 				}
 				r := e.runPath(h, fn, prefix, solver)
 				if pathLog {
@@ -430,6 +451,8 @@ func (e *engine) runPathPinned(h *harnessSpec, fn *ssa.Function, prefix []int, s
 		stash:    map[string]value{},
 		stubs:    map[string]value{},
 		bounds:   map[string]interval{},
+		known:    map[string]bool{},
+		tokens:   map[string]bool{},
 	}
 	base := solver.depth
 	solver.Push()
